@@ -20,7 +20,8 @@ TBuilderOrder ==
 Cfg2(e) == [kernels |-> [i \in 1..Len(e.kernels) |->
                            [keys |-> SeqToSet(e.kernels[i].keys), ident |-> e.kernels[i].ident]],
             qgs |-> e.qgs, hasModel |-> e.has_model, hasInit |-> e.has_init,
-            seedChains |-> e.seed_chains, chains |-> e.chains]
+            seedChains |-> e.seed_chains, chains |-> e.chains,
+            included |-> SeqToSet(e.included), excluded |-> SeqToSet(e.excluded)]
 
 TBuilder ==
   /\ IsEvent("builder")
